@@ -394,6 +394,18 @@ def main():
     heads = uniq
     lbody = translate_stmt(w[1], "integrate_raw loop body")
     epi = translate_block(body[li + 1:], "integrate_raw epilogue")
+    # the other stepping entry point of the C API: reb_simulation_steps = a single for loop around reb_simulation_step
+    sb = kids(function(ast, "reb_simulation_steps"))
+    if len(sb) != 1 or sb[0].get("kind") != "ForStmt":
+        fail("reb_simulation_steps is not a single for loop")
+    fk = kids(sb[0])
+    for x in fk[:-1]:
+        if has_sync(x):
+            fail("reb_simulation_steps: synchronisation in the loop header")
+    for x in walk(fk[-1]):
+        if x.get("kind") in ("ReturnStmt", "ContinueStmt", "BreakStmt", "GotoStmt"):
+            fail("reb_simulation_steps loop body contains %s" % x["kind"])
+    steps_body = translate_stmt(fk[-1], "reb_simulation_steps loop body")
     # any other function of rebound.c that touches the mutex is outside the model: list them
     # ------------------------------------------------------------------ server thread
     sync_helpers_rebound = sorted(SYNCFUNS)
@@ -485,7 +497,7 @@ def main():
                 if (u.get("kind") == "CallExpr" and callee(u) == "fclose" and v.get("kind") == "CallExpr" and callee(v) == "close"
                         and (arg_name(u), arg_name(v)) in fdopen_pairs):
                     double_close += 1
-    out = {"double_close_sites": double_close, "prologue": pro, "heads": heads, "body": lbody, "sync_helpers": sync_helpers_rebound, "epilogue": epi, "handlers": handlers, "server_startup_writes": startup_writes}
+    out = {"double_close_sites": double_close, "prologue": pro, "heads": heads, "steps_body": steps_body, "body": lbody, "sync_helpers": sync_helpers_rebound, "epilogue": epi, "handlers": handlers, "server_startup_writes": startup_writes}
     os.makedirs(os.path.dirname(OUTJ), exist_ok=True)
     json.dump(out, open(OUTJ, "w"), indent=1)
     coq = ["(* GENERATED by tools/translate_lockproto.py from $VERIF_REPO/src/rebound.c, server.c — do not edit. *)",
@@ -500,6 +512,8 @@ def main():
            "Definition sync_helpers : list string := [%s]." % "; ".join(qs(f) for f in sync_helpers_rebound),
            "Definition integ_loop_body : list act := %s." % coq_list(lbody),
            "Definition integ_epilogue : list act := %s." % coq_list(epi),
+           "(* loop body of reb_simulation_steps (what sim.steps(n) runs; sim.step() calls reb_simulation_step directly) *)",
+           "Definition steps_loop_body : list act := %s." % coq_list(steps_body),
            "Definition handlers : list (string * list act) := [\n  %s]." % ";\n  ".join("(%s, %s)" % (qs(h), coq_list(a)) for h, a in handlers),
            "(* simulation writes of the server thread before it accepts requests (message buffer), not part of the modelled programs *)",
            "(* places where the request loop closes a connection descriptor twice: fclose(fdopen(fd)) followed by close(fd) *)",
